@@ -394,3 +394,20 @@ add({"name": "hexdump_bytes", "file": "dfs/hexdump.cc",
                (r"(for \(size_t i = 0; i < stride; \+\+i\))(\s*\{\s*if \(i < len\)\s*\{ OUT_CHR)", r"\1 HEXDUMP_HEX_CONTRACT\2", 1),
                (r"(for \(size_t i = 0; i < stride; \+\+i\))(\s*\{\s*char ch)", r"\1 HEXDUMP_ASCII_CONTRACT\2", 1)],
      "dropped": ["ostream_flag_saver (stream flags restored on return)"]})
+
+# ---- dfs_catalog.cc (C02): the `info` line, operator<<(ostream&, const CatalogEntry&) ----------------------------
+add({"name": "info_line", "file": "dfs/dfs_catalog.cc",
+     "anchor": r"ostream& operator<<\(ostream& outer_os, const DFS::CatalogEntry& entry\)",
+     "sig": "static void info_line(const struct CatalogEntry *entry)",
+     "pre": "#define os (&os_obj)\n", "post": "#undef os\n",
+     "rules": [(r"std::ostream::sentry s\(outer_os\);", "/* sentry dropped */", 1), (r"if \(s\)", "if (1)", 1),
+               (r"std::ostringstream os;", "os_init(&os_obj);  /* ostringstream os: fresh stream, default format state */", 1),
+               (r"DFS::sign_extend\(", "sign_extend(", 2),
+               (r"entry\.load_address\(\)", "CatalogEntry_load_address(entry)", 1), (r"entry\.exec_address\(\)", "CatalogEntry_exec_address(entry)", 1),
+               (r"entry\.directory\(\)", "CatalogEntry_directory(entry)", 1), (r"entry\.name\(\)", "CSTR(CatalogEntry_name(entry))", 1),
+               (r"entry\.is_locked\(\)", "CatalogEntry_is_locked(entry)", 1), (r"entry\.file_length\(\)", "CatalogEntry_file_length(entry)", 1),
+               (r"entry\.start_sector\(\)", "CatalogEntry_start_sector(entry)", 1),
+               ("OSTREAM_CHAIN", "os", 1),
+               (r"outer_os << os\.str\(\);", "/* outer_os << os.str(): the line built above is inserted into the caller's stream as one string */", 1),
+               (r"return outer_os;", "return;", 1)],
+     "dropped": ["ostream::sentry", "the final insertion of the assembled line into the outer stream"]})
